@@ -1049,7 +1049,8 @@ CIGAR_CH = "MIDNSHP=X"
 
 
 def write_bam(path, world, reads, build="hg19", sort=True, index=True, mapq=60,
-              baseq=40, fmt="bam", extra_records=None, header_extra=None, lowq=None, dup=1, omit_main=False):
+              baseq=40, fmt="bam", extra_records=None, header_extra=None, lowq=None, dup=1, omit_main=False,
+              omit_neutral_contig=False):
     """`lowq` = {"seed", "frac", "kind": "base" | "mapq" | "both", "shape": "random" | "front" | "back"}:
     a fraction of the records gets a mapping quality below aldy's threshold or scattered base qualities of 5
     (unevenly along the file order with shape front / back).  `dup` = k: every read is written k times
@@ -1088,6 +1089,13 @@ def write_bam(path, world, reads, build="hg19", sort=True, index=True, mapq=60,
             {"HD": {"VN": "1.6", "SO": "coordinate" if sort else "unsorted"}, "SQ": sq}
         )
         recs = [r[:7] + (r[7] - 1,) for r in recs if len(r) > 7 and r[7] >= 1]
+    if omit_neutral_contig and nc:
+        # a header without the chromosome of the neutral locus (and without its reads)
+        sq = [sq[0]] + sq[2:]
+        header = pysam.AlignmentHeader.from_dict(
+            {"HD": {"VN": "1.6", "SO": "coordinate" if sort else "unsorted"}, "SQ": sq}
+        )
+        recs = [r for r in recs if len(r) <= 7 or r[7] == 0]
     if dup > 1:
         recs = [r[:3] + (f"{r[3]}x{k}",) + r[4:] for r in recs for k in range(dup)]
     if sort:
